@@ -1,4 +1,6 @@
 import DendroModel.Model.C06
+import DendroModel.Theory.C06Proto
+import DendroModel.Theory.C06Argmax
 import Mathlib.Tactic.Ring
 /-! C06 — property theorems about the `TreeArray` / `SplitDistribution` / SumTrees model of
 `Model/C06.lean` (the definitions the driver `drv_c06` executes).
@@ -1161,6 +1163,14 @@ theorem mem_consensusOrder (sd : SD) (θ : Q) (s : Nat) :
     exact ⟨⟨kc, hkc, rfl⟩, hle⟩
 
 
+theorem range_flatMap_getElem? {α β : Type} (h : Option α → List β) : ∀ (l : List α),
+    (List.range l.length).flatMap (fun i => h l[i]?) = l.flatMap (fun x => h (some x))
+  | [] => rfl
+  | x :: r => by
+    rw [List.length_cons, List.range_succ_eq_map, List.flatMap_cons, List.flatMap_map, List.flatMap_cons]
+    simp only [List.getElem?_cons_zero, List.getElem?_cons_succ]
+    rw [range_flatMap_getElem? h r]
+
 theorem f2_get {α β : Type} {R : α → β → Prop} {l1 : List α} {l2 : List β} (h : List.Forall₂ R l1 l2) :
     ∀ d : Nat, (l1[d]? = none ∧ l2[d]? = none) ∨ ∃ x y, l1[d]? = some x ∧ l2[d]? = some y ∧ R x y := by
   induction h with
@@ -1432,6 +1442,88 @@ theorem consensus_of_obs_partial {a b : SD} (h : ObsEq a b) (θ : Q) (s : Nat) :
     s ∈ consensusOrder a θ ↔ s ∈ consensusOrder b θ := by
   rw [mem_consensusOrder, mem_consensusOrder, freq_of_obs h s, (h.2.2.2.2 s).1]
 
+/-- **async_sentinel_every_file_once** (clause d, queue level): under the end-marker protocol (blocking `get`, one marker
+per worker behind the files) with *asynchronous* delivery of the work items, for every number of workers, every number of
+files and every schedule `choices` of deliveries and worker moves, the run ends with every worker stopped (so the parent
+collects exactly one result per worker) and every file read exactly once, by exactly one worker. -/
+theorem async_sentinel_every_file_once (nw nfiles : Nat) (choices : List Nat) (hnw : 0 < nw) :
+    (finalP true nw nfiles choices).ws.length = nw ∧
+    (∀ w ∈ (finalP true nw nfiles choices).ws, w.phase = Phase.done) ∧
+    ((finalP true nw nfiles choices).ws.flatMap (·.taken)).Perm (List.range nfiles) := by
+  have hinv := run_inv true (PInv nw nfiles) (fun s a h ha => pinv_apply s a h ha) (fuelOf nw nfiles) choices _ (pinv_init nw nfiles)
+  have hterm := run_terminal true (fuelOf nw nfiles) choices _ (mu_init true nw nfiles)
+  obtain ⟨h1, h2⟩ := pinv_terminal hinv hnw hterm
+  exact ⟨hinv.len, h1, h2⟩
+
+/-- **sumtrees_async_schedule_independent** (clause d, with the queue): with the end-marker protocol, whatever the
+schedule of item deliveries and worker moves (`choices`) and whatever the arrival order of the results, the parallel
+run returns (never hangs), never fails, and yields the observable and the rows (up to order) of the serial run. -/
+theorem sumtrees_async_schedule_independent (ρ : Option Bool) (fl : Flags) (r : Option Bool) (nw : Nat)
+    (choices arrival : List Nat) (files : List (List TRec)) (hnw : 0 < nw) (harr : arrival.Perm (List.range nw))
+    (htrees : ∀ f ∈ files, ∀ t ∈ f, t.rooted = ρ) (hr : r = none ∨ r = ρ) :
+    ∃ m s, runAsync r fl true nw choices arrival files = some (.ok m) ∧ runSerial r fl files = .ok s ∧
+      ObsEq m.sd s.sd ∧ m.rows.Perm s.rows ∧ Aligned m := by
+  obtain ⟨hlen, hdone, hperm⟩ := async_sentinel_every_file_once nw files.length choices hnw
+  generalize hfin : finalP true nw files.length choices = fin at hlen hdone hperm
+  let part : Nat → Option Bool × List TRec := fun i => (r, treesOf fin files i)
+  have hall : ∀ t ∈ files.flatten, t.rooted = ρ := by
+    intro t ht
+    obtain ⟨f, hf, htf⟩ := List.mem_flatten.1 ht
+    exact htrees f hf t htf
+  have hc : Compatible ρ (arrival.map part) := by
+    intro p hp
+    obtain ⟨i, _, rfl⟩ := List.mem_map.1 hp
+    refine ⟨hr, ?_⟩
+    intro t ht
+    simp only [part, treesOf, List.mem_flatMap] at ht
+    obtain ⟨k, _, htk⟩ := ht
+    cases hk : files[k]? with
+    | none => simp [hk] at htk
+    | some f =>
+      simp only [hk, Option.getD_some] at htk
+      exact htrees f (List.mem_of_getElem? hk) t htk
+  obtain ⟨ws, hws, rws⟩ := rep_buildParts (fl := fl) (arrival.map part) hc
+  obtain ⟨m, hm, rm⟩ := rep_collate (arrival.map part) ws _ [] (rep_new ρ fl r hr) rws
+  obtain ⟨s, hs, rs⟩ := rep_addAll files.flatten (rep_new ρ fl r hr) hall
+  have hp1 : ((List.range nw).flatMap (fun i => treesOf fin files i)).Perm files.flatten := by
+    have e1 : (List.range nw).flatMap (fun i => treesOf fin files i) =
+        (fin.ws.flatMap (·.taken)).flatMap (fun k => files[k]?.getD []) := by
+      rw [← hlen]
+      have := range_flatMap_getElem? (fun o : Option WState => ((o.map (·.taken)).getD []).flatMap (fun k => files[k]?.getD [])) fin.ws
+      simp only [treesOf]
+      rw [this, List.flatMap_assoc]
+      rfl
+    rw [e1]
+    refine (hperm.flatMap_right _).trans ?_
+    have := range_flatMap_getElem? (fun o : Option (List TRec) => o.getD []) files
+    simp only [Option.getD_some] at this
+    rw [this]
+    simp [List.flatMap_id']
+  have hperm2 : (([] : List TRec) ++ (arrival.map part).flatMap (fun p => p.2)).Perm ([] ++ files.flatten) := by
+    simp only [List.nil_append, List.flatMap_map]
+    exact (flatMap_perm (fun i => (part i).2) harr).trans hp1
+  refine ⟨m, s, ?_, hs, sdrep_obs rm.sd rs.sd hperm2, ?_, rep_aligned rm⟩
+  · have hall' : fin.ws.all (fun w => w.phase == Phase.done) = true := by
+      simp only [List.all_eq_true, beq_iff_eq]; exact hdone
+    simp only [runAsync, hfin, hall', if_true]
+    change some (match buildParts fl (arrival.map part) with | .ok ws => collate (TA.new r fl) ws | .error e => .error e) = _
+    rw [hws]
+    exact congrArg some hm
+  · rw [rep_rows rm, rep_rows rs]
+    exact hperm2.map _
+
+/-- **mcc_index_spec** (clause c): `mccIndex` — the index `calculate_log_product_of_split_supports` reports — points at a
+tree whose credibility score is a maximum of all scores (no score is strictly greater, in the order of the rationals),
+and it is the *first* maximiser (every earlier tree scores strictly less).  Hypothesis: the score fractions have
+positive denominators (true of every score computed from positive tree weights; un-normalised fractions with a zero
+denominator would not be ordered). -/
+theorem mcc_index_spec (a : TA) (l : List Q) (hs : scores a = some l) (hne : l ≠ []) (hpos : ∀ q ∈ l, 0 < q.den) :
+    ∃ j m, mccIndex a = some j ∧ l[j]? = some m ∧
+      (∀ (k : Nat) (x : Q), l[k]? = some x → Q.lt m x = false) ∧
+      (∀ (k : Nat) (x : Q), k < j → l[k]? = some x → Q.lt x m = true) := by
+  obtain ⟨j, m, h, hb⟩ := argmax_spec l hpos hne
+  exact ⟨j, m, by simp [mccIndex, hs, h], hb.1, hb.2.1, hb.2.2⟩
+
 /-! ### non-vacuity: the hypotheses are satisfiable and the statements say something on a concrete sample -/
 
 section Examples
@@ -1485,6 +1577,17 @@ example : (match addTree (TA.new none exFl) exT1 none, addTree (TA.new none exFl
 example : (let r := run [] [Op.new none ⟨true, true, true⟩, Op.new none exFl, Op.add 1 exT1, Op.upd 0 1, Op.add 0 exT1]
     (r.2, r.1[0]?.map (fun a => (a.sd.total, a.splits.length, a.leafsets.length)))) =
     ([none, none, none, none, some Err.assertion], some (2, 1, 1)) := by decide
+/-- the unrepaired protocol (`get_nowait`, no markers) under asynchronous delivery: if both workers ask before the one file
+    has been delivered, both quit and the file is read by nobody; with markers and blocking `get` the same schedule reads it -/
+example : ((finalP false 2 1 [1, 1, 1, 1]).ws.map (·.taken), (finalP true 2 1 [1, 1, 1, 1]).ws.map (·.taken)) = ([[], []], [[0], []]) := by
+  decide
+/-- … and the unrepaired parallel run then returns an empty summary where the serial run counts one tree -/
+example : (match runAsync none exFl false 2 [1, 1, 1, 1] [0, 1] [[exT1]] with | some (.ok m) => some m.sd.total | _ => none) = some 0 := by
+  decide
+/-- `mcc_index_spec`: its hypotheses hold on the sample (three scores, positive denominators) and the index is the first maximiser -/
+example : (match (run [] exSerial).1[0]? with
+    | some a => ((scores a).map (fun l => (l.length, l.all (fun q => 0 < q.den))), mccIndex a)
+    | none => (none, none)) = (some (3, true), some 0) := by decide
 end Examples
 
 end DendroModel.C06
